@@ -90,6 +90,79 @@ fn family_hist_inside(n: usize, opts: &Opts, sink: Sink) {
     }
 }
 
+fn tr(kind: K, children: Vec<Tree>) -> Tree {
+    Tree { kind, children }
+}
+
+/// Listed corpus of shapes beyond the size bound of the exhaustive families: parallel states with
+/// compound regions, parallel under a compound (history over a parallel), parallel in parallel,
+/// three regions, a depth-4 chain, regions with finals. Not a sample: a fixed list, each explored
+/// completely.
+fn corpus_shapes(thorough: bool) -> Vec<(&'static str, Vec<Tree>)> {
+    let leaf = || tr(K::S, vec![]);
+    let fin = || tr(K::F, vec![]);
+    let reg = || tr(K::S, vec![leaf(), leaf()]);
+    let mut v = vec![
+        ("par2x2", vec![leaf(), tr(K::P, vec![reg(), reg()])]),
+        ("par2x2-under-compound", vec![leaf(), tr(K::S, vec![tr(K::P, vec![reg(), reg()])])]),
+    ];
+    if thorough {
+        v.push(("par-in-par", vec![leaf(), tr(K::P, vec![reg(), tr(K::P, vec![reg(), reg()])])]));
+        v.push(("par3", vec![leaf(), tr(K::P, vec![reg(), reg(), reg()])]));
+        v.push(("chain4", vec![leaf(), tr(K::S, vec![tr(K::S, vec![tr(K::S, vec![leaf(), leaf()]), leaf()]), leaf()])]));
+        v.push(("par-with-finals", vec![leaf(), tr(K::P, vec![tr(K::S, vec![leaf(), fin()]), tr(K::S, vec![leaf(), fin()])])]));
+        v.push(("compound-regions-deep", vec![leaf(), tr(K::P, vec![tr(K::S, vec![tr(K::S, vec![leaf(), leaf()]), leaf()]), reg()])]));
+    }
+    v
+}
+
+/// every corpus shape without history and with one history pseudo-state (every inner parent x
+/// shallow/deep; quick: first legal default only, thorough: every default), all candidate transitions
+/// (single targets incl. the history state, legal target pairs, internal variants) each on its own
+/// event in one document; complete reachable graph.
+/// `hist`: 0 = without and with history, 1 = only the variants with a history state, 2 = only without
+fn family_corpus(thorough: bool, hist: u8, opts: &Opts, sink: Sink) {
+    for (name, f) in corpus_shapes(thorough) {
+        let mut variants: Vec<(String, Doc)> = vec![];
+        if hist != 1 {
+            variants.push(("nohist".into(), base_doc(&f, &[])));
+        }
+        for o in inner_ordinals(&f) {
+            if hist == 2 {
+                break;
+            }
+            for deep in [false, true] {
+                let d0 = base_doc(&f, &[(o, deep)]);
+                let h = d0.nodes.iter().position(|n| n.kind.is_history()).unwrap();
+                for (k, t) in history_defaults(&d0, h).into_iter().enumerate() {
+                    if !thorough && k > 0 {
+                        break;
+                    }
+                    let mut d = d0.clone();
+                    set_history_default(&mut d, h, t);
+                    variants.push((format!("h{}{}>{}", o, if deep { "d" } else { "s" }, d0.nodes[t].name), d));
+                }
+            }
+        }
+        for (hl, d0) in variants {
+            let mut d = d0.clone();
+            let cands: Vec<Cand> = candidates(&d, true, false, true)
+                .into_iter()
+                .filter(|c| !is_hist_inside(&d0, c))
+                .collect();
+            for (i, c) in cands.iter().enumerate() {
+                add_trans(&mut d, c, Some(&format!("t{}", i)), None, "");
+            }
+            sink(Item {
+                label: format!("corpus {} {}", name, hl),
+                doc: d,
+                opts: Opts { max_states: 2000, ..opts.clone() },
+                sig_hint: String::new(),
+            });
+        }
+    }
+}
+
 fn shape_str(f: &[Tree]) -> String {
     fn rec(t: &Tree, s: &mut String) {
         s.push(match t.kind {
@@ -314,6 +387,70 @@ fn family_queues(thorough: bool, opts: &Opts, sink: Sink) {
                                 sig_hint: String::new(),
                             });
                         }
+                    }
+                }
+            }
+        }
+    }
+}
+
+/// C03: internal work produced by an external event that enables no transition. State s1 carries a
+/// transition whose guard fails to evaluate (error.execution is queued, the guard counts as false) or
+/// an eventless transition whose guard reads _event, next to observers for error.execution and for
+/// the following external events: the internal event / the eventless transition must be handled
+/// before the next external event is dequeued, however many unmatched events follow.
+fn family_stranded(opts: &Opts, sink: Sink) {
+    let prods: Vec<Vec<Stmt>> = vec![vec![], vec![Stmt::Raise("x".into())]];
+    let mut idx = 0;
+    for kind in 0..3 {
+        for a_tgt in 0..2 {
+            for with_err_observer in [true, false] {
+                for pc in 0..prods.len() {
+                    for s2_trig in 0..2 {
+                        idx += 1;
+                        let mut d = Doc::new();
+                        d.nodes[0].data.push(("v".into(), Some(Expr::Int(0))));
+                        let s1 = d.add(0, "s1", Kind::State);
+                        let s2 = d.add(0, "s2", Kind::State);
+                        let s3 = d.add(0, "s3", Kind::State);
+                        std_marks(&mut d);
+                        let tgt = if a_tgt == 0 { s2 } else { s3 };
+                        let mut push = |d: &mut Doc, src: Nx, ev: Vec<String>, cond: Option<Expr>, t: Nx, tag: &str, extra: Vec<Stmt>| {
+                            let mut content = vec![Stmt::Mark(vec!["t".into(), d.nodes[src].name.clone(), tag.into()])];
+                            content.extend(extra);
+                            d.nodes[src].trans.push(Trans { events: ev, cond, targets: vec![t], internal: false, content });
+                        };
+                        match kind {
+                            0 => push(&mut d, s1, vec!["e1".into()], Some(Expr::Bad), tgt, "A", vec![]),
+                            1 => push(&mut d, s1, vec![], Some(Expr::EvNameEq("e1".into())), tgt, "A", vec![]),
+                            _ => {
+                                // both: the failing guard first, then the eventless reader of _event
+                                push(&mut d, s1, vec!["e1".into()], Some(Expr::Bad), tgt, "A", vec![]);
+                                push(&mut d, s1, vec![], Some(Expr::EvNameEq("e2".into())), tgt, "A2", vec![]);
+                            }
+                        }
+                        if with_err_observer {
+                            push(&mut d, s1, vec!["error.execution".into()], None, s3, "B", vec![]);
+                        }
+                        push(&mut d, s1, vec!["e2".into()], None, s2, "C", prods[pc].clone());
+                        push(&mut d, s1, vec!["x".into()], None, s3, "D", vec![]);
+                        if s2_trig == 0 {
+                            push(&mut d, s2, vec!["e1".into()], None, s1, "E", vec![]);
+                        } else {
+                            push(&mut d, s2, vec!["e1".into()], Some(Expr::Bad), s1, "E", vec![]);
+                            push(&mut d, s2, vec!["error.execution".into()], None, s1, "E2", vec![]);
+                        }
+                        push(&mut d, s2, vec!["e2".into()], None, s3, "F", vec![]);
+                        push(&mut d, s3, vec!["e2".into()], None, s1, "G", vec![]);
+                        push(&mut d, s3, vec!["error.execution".into()], None, s2, "H", vec![]);
+                        let mut o = opts.clone();
+                        o.extra_events = vec!["noise".into()];
+                        sink(Item {
+                            label: format!("stranded #{} kind{} tgt{} obs{} p{} s2t{}", idx, kind, a_tgt, with_err_observer, pc, s2_trig),
+                            doc: d,
+                            opts: o,
+                            sig_hint: String::new(),
+                        });
                     }
                 }
             }
@@ -819,6 +956,7 @@ fn families(ctx: &Ctx, sink: Sink) {
             family_singles(4, true, true, thorough, &o, sink);
             family_pairs(if thorough { 4 } else { 3 }, thorough, &o, sink);
             family_hist_inside(3, &o, sink);
+            family_corpus(thorough, 0, &o, sink);
         }
         "C02" => {
             let o = Opts {
@@ -828,6 +966,7 @@ fn families(ctx: &Ctx, sink: Sink) {
             family_singles(4, true, true, thorough, &o, sink);
             family_pairs(if thorough { 4 } else { 3 }, thorough, &o, sink);
             family_hist_inside(3, &o, sink);
+            family_corpus(thorough, 0, &o, sink);
         }
         "C03" => {
             let o = Opts {
@@ -835,6 +974,7 @@ fn families(ctx: &Ctx, sink: Sink) {
                 ..Opts::default()
             };
             family_queues(thorough, &o, sink);
+            family_stranded(&o, sink);
         }
         "C06" => {
             let o = Opts::default();
@@ -864,6 +1004,7 @@ fn families(ctx: &Ctx, sink: Sink) {
                 }
             }
             family_two_histories(if thorough { 4 } else { 3 }, &o, sink);
+            family_corpus(thorough, 1, &o, sink);
             let oi = Opts {
                 check_legality: true,
                 ..Opts::default()
@@ -877,6 +1018,9 @@ fn families(ctx: &Ctx, sink: Sink) {
                 ..Opts::default()
             };
             family_finals(if thorough { 5 } else { 4 }, &o, sink);
+            // shutdown by cancel from every reachable configuration of the larger parallel shapes
+            // (exit order and onexit content of exitInterpreter; no finals needed)
+            family_corpus(thorough, 2, &o, sink);
         }
         "C19" => {
             let o = Opts::default();
